@@ -48,3 +48,10 @@ Example C15_ex :
   fst (send 10 4096 5000 63 []) = Ok /\ send 10 4096 5000 64 [] = (ErrTooMany, []) /\
   send 10 4096 3000 64 [FNoBufs] = (ErrTooMany, [EvSendmsg 3000 0 3000 64 false SNoBufs]).
 Proof. vm_compute. repeat split. Qed.
+
+(* a value may embed more regions than one OS message carries (the in-process transport has no limit): the marker written for a
+   region WITHOUT data must therefore be no possible index at all - not merely one beyond the OS limit.  The marker is GENERATED from
+   the source (what Serialize writes and Deserialize tests, constants resolved); no collection in memory has 2^63 elements *)
+Theorem C15_empty_marker_is_no_index : forall i, 0 <= i < 2 ^ 63 -> i <> EMPTY_REGION_SENTINEL.
+Proof. intros i H E. subst i. unfold EMPTY_REGION_SENTINEL in H. vm_compute in H. destruct H as [_ H]. discriminate H. Qed.
+Print Assumptions C15_empty_marker_is_no_index.
